@@ -35,6 +35,7 @@ RULE = ("Enumerated part: all 256 byte values at odd and at even word "
         "runs.")
 RULE += (" Further cases: a third client's nameplate comes and goes during entry (completions compared with the server's latest list); the CLI's readline completer (real _rlcompleter.CodeInputter, harness acting as the user, blockingCallFromThread replaced by call-and-run-the-simulation-until-fired).")
 RULE += (' The readline case includes typos in the nameplate (malformed, later corrected).')
+RULE += (' The history case also fetches completions from inside the when_wordlist_is_available() notification.')
 LEVEL_TEXT = ("Exploration over generated inputs and call histories, with the "
               "byte->word map checked exhaustively (2x256 values). Oracles: "
               "code = server nameplate + '-' + exactly `length` words, one "
